@@ -28,6 +28,12 @@ I2(h) == \A i \in 1..Len(h) : h[i].k = "eq" => (h[i].eq = (h[i].a = h[i].b) /\ h
 I3(h) == \A j \in Mks(h) : h[j].api \in {"complement", "re_comp"} =>
             /\ h[j].res # h[j].key[1]
             /\ \A i \in Mks(h) : (i < j /\ h[i].api = h[j].api /\ h[i].res = h[j].key[1]) => h[j].res = h[i].key[1]
+(* a history may carry one large shared AST (scale cases); events then refer to it: [ref |-> TRUE, neg |-> b] *)
+EvAst(e, shared) == IF "ast" \in DOMAIN e THEN e.ast ELSE IF e.neg THEN [k |-> "not", a |-> shared] ELSE shared
+I4s(h, shared) ==
+  \A i \in 1..Len(h) : h[i].k = "mem" =>
+     LET t == Core(EvAst(h[i], shared)) IN
+     \A w \in 1..Len(h[i].words) : h[i].res[w] = Accepts(t, h[i].words[w])
 I4(h) == /\ \A i \in Mks(h) : h[i].nullable = Nullable(Core(h[i].ast))
          /\ \A i \in 1..Len(h) : h[i].k = "mem" =>
                \A w \in 1..Len(h[i].words) : h[i].res[w] = Accepts(Core(h[i].ast), h[i].words[w])
